@@ -94,6 +94,21 @@ CLAIMS["C03"] = (
     "text); status texts are concrete.",
     "DESIGN.md §4 C03")
 
+CLAIMS["C05"] = (
+    "Symbolic execution of the real Quake 1/2/3 query code on reference status replies (both key spellings, quoted and "
+    "unquoted names, optional address field, 0-2 player lines) with the solver deciding every generated obligation for all "
+    "ip/port values; remove_wrapping_quotes for every string of <= 3 bytes. The reply texts are concrete, so this is the "
+    "weakest decode claim: it decides the listed replies, not all replies.",
+    "Trusted: hooks H3/H4/H5, listed stubs. Outside: symbolic reply text (split positions become symbolic).",
+    "DESIGN.md §4 C05")
+CLAIMS["C16"] = (
+    "Solver verdict that every filter kind in every group is encoded as the Master Server Query Protocol prescribes "
+    "(boolean payloads symbolic), that a later filter of a kind replaces the earlier, that each filter lands in exactly its "
+    "group (parsed back with a grammar parser), that the request is '1' region ip:port NUL filters for all regions, and that "
+    "paging returns all addresses without the terminator and seeds follow-up requests with the last address.",
+    "Trusted: hooks H3-H5, reference encoder. Outside: symbolic numeric/string payloads, > 2 pages.",
+    "DESIGN.md §4 C16")
+
 ALL = ["C%02d" % i for i in range(1, 21)]
 
 DEFAULT_NA = "check not built yet in this revision (work in progress; see DESIGN.md for the plan)"
